@@ -18,6 +18,7 @@ CONSTANTS
   MaxPending = 2
   BUG_F5 = FALSE
   BUG_F6 = FALSE
+  OPS = {"fs", "refresh", "api", "inject"}
   EMIT = FALSE
 VIEW View4MC
 INVARIANTS TypeOK PrecedenceOK IsolationOK
